@@ -235,6 +235,42 @@ def replay_c18(state):
 
 
 # ------------------------------------------------------------------ C19 helpers
+def _collect_nested(result, top_cls, acc, depth=0):
+    """every model instance inside a result: the values its declared properties hold, grouped
+    by (class, attribute), with the annotation that class's generated source gives them"""
+    from statham.schema.elements import Object
+    from statham.schema.constants import NotPassed
+    if depth > 8:
+        return
+    if isinstance(result, Object):
+        c = type(result)
+        if c is not top_cls:
+            for attr, prop in c.properties.items():
+                key = (c.__name__, attr)
+                if key not in acc:
+                    cause = "other"
+                    try:
+                        for sub in drive.walk_elements(prop.element):
+                            cause = _allof_cause(sub, cause)
+                        annot = prop.annotation
+                    except Exception:  # noqa
+                        continue
+                    reqd = bool(prop.required) or not isinstance(getattr(prop.element, "default", NotPassed()), NotPassed)
+                    acc[key] = dict(annot=annot, reqd=reqd, outs=[], cause=cause)
+                try:
+                    acc[key]["outs"].append(codec.py_to_tagged(drive.project(result._dict.get(attr, NotPassed()))))
+                except Exception:  # noqa
+                    pass
+        for v in result._dict.values():
+            _collect_nested(v, top_cls, acc, depth + 1)
+    elif isinstance(result, dict):
+        for v in result.values():
+            _collect_nested(v, top_cls, acc, depth + 1)
+    elif isinstance(result, (list, tuple)):
+        for v in result:
+            _collect_nested(v, top_cls, acc, depth + 1)
+
+
 def _type_expr(node):
     """ast of an annotation -> type-expression record (PropsElem.tla)"""
     T = lambda t, a=(), n="": {"t": t, "a": list(a), "n": n}
@@ -300,6 +336,7 @@ def replay_c19(state):
         reqd = bool(prop.required) or not isinstance(getattr(prop.element, "default", NotPassed()), NotPassed)
         outs = []
         skipped = 0
+        nested = {}          # (class name, attr) -> dict(annot, reqd, outs): properties of nested classes
         for v in [None] + list(range(len(pyvals))):
             data = {} if v is None else mk(pyvals[v])
             k, r = drive.call(cls, data)
@@ -310,6 +347,8 @@ def replay_c19(state):
                 outs.append(codec.py_to_tagged(val))
             except Exception:  # noqa
                 skipped += 1
+            if how == "property":
+                _collect_nested(r, cls, nested)
         cause = "other"
         try:
             from statham.schema.elements import AllOf
@@ -319,6 +358,13 @@ def replay_c19(state):
             pass
         obs["wrappers"].append(dict(how=how, annot=text_annot, ty=ty, reqd=reqd, outs=outs, skipped=skipped,
                                     cause=cause))
+        for (cname, attr), info in list(nested.items())[:8]:
+            try:
+                nty = _type_expr(ast.parse(info["annot"], mode="eval").body)
+            except SyntaxError:
+                nty = {"t": "?", "a": [], "n": ""}
+            obs["wrappers"].append(dict(how=f"nested {cname}.{attr}", annot=info["annot"], ty=nty, reqd=info["reqd"],
+                                        outs=info["outs"][:60], skipped=0, cause=info["cause"]))
     return obs
 
 
@@ -337,6 +383,53 @@ def _allof_cause(sub, cause):
         return cause if cause.startswith("allof-annotation-overrides") else \
             "allof-annotation-is-not-its-first-member's"
     return "allof-annotation-overrides-explicitly-typed-first-member"
+
+
+def inheritance_pairs():
+    """C17 on classes that got their keywords by INHERITANCE: a subclass, a flat class with the
+    merged declaration (an independently built copy: must be equal) and flat classes with one
+    inherited keyword or property dropped (whenever == says equal, verdicts and JSON must agree)."""
+    import checks_heap
+    from statham.serializers import serialize_json
+    lines, _ = df._cached_tlc("heap-bfs", checks_heap._cfg(checks_heap.TIERS["quick"][0]), module="MC_Heap", workers=8)
+    init = [s for s in lines if not s["hist"] and s["init"]["values"]][0]
+    values = [codec.val_to_py(v) for v in init["init"]["values"]]
+    objs = checks_heap._make_heap(init)
+    out = []
+    for x in ("C", "D", "F"):
+        cls = objs[x]
+        rec = drive.project_element(cls)
+        variants = [("flat-copy", rec)]
+        for k in list(rec["kw"]):
+            if k == "properties":
+                for i in range(len(rec["kw"]["properties"])):
+                    v = copy.deepcopy(rec)
+                    del v["kw"]["properties"][i]
+                    variants.append((f"without-property-{rec['kw']['properties'][i]['attr']}", v))
+            else:
+                v = copy.deepcopy(rec)
+                del v["kw"][k]
+                variants.append((f"without-{k}", v))
+        ka = [drive.call(cls, v)[0] for v in values]
+        try:
+            ja = codec.py_to_tagged(serialize_json(cls))
+        except Exception:  # noqa
+            ja = None
+        for tag, vrec in variants:
+            other = drive.build_element(vrec)
+            try:
+                eqab, eqba = bool(cls == other), bool(other == cls)
+            except Exception as exc:  # noqa
+                out.append(dict(x=x, tag=tag, err=repr(exc)[:100]))
+                continue
+            kb = [drive.call(other, v)[0] for v in values]
+            try:
+                jb = codec.py_to_tagged(serialize_json(other))
+            except Exception:  # noqa
+                jb = None
+            out.append(dict(x=x, tag=tag, eqab=eqab, eqba=eqba, ka=ka, kb=kb, ja=ja, jb=jb,
+                            must_equal=(tag == "flat-copy")))
+    return out
 
 
 def _annot_obs(st):
@@ -488,6 +581,26 @@ def run(pid, tier, replay_file=None):
                 add_event(si, ("wrap", wi), '[id |-> @ID@, p |-> "C19", doc |-> %s, ty |-> %s, reqd |-> %s, outs |-> %s]'
                           % (tlajson_to_tla(st["doc"]), tlajson_to_tla(w["ty"]), B(w["reqd"]), outs))
 
+    inh = []
+    if pid == "C17" and not replay_file:
+        inh = inheritance_pairs()
+        for ii, pr in enumerate(inh):
+            if "err" in pr:
+                rep.violation(("C17", "eq-raises", "inheritance"), f"== raises for class {pr['x']} vs {pr['tag']}: {pr['err']}", dict(pair=pr))
+                continue
+            checked += 1
+            if pr["must_equal"] and not (pr["eqab"] and pr["eqba"]):
+                rep.violation(("C17", "copy-not-equal", "inheritance"),
+                              f"class {pr['x']} (keywords and properties obtained by inheritance) is not equal to an "
+                              f"independently built flat class with the same declaration: a==b {pr['eqab']}, b==a {pr['eqba']}",
+                              dict(pair={k: v for k, v in pr.items() if k not in ('ja', 'jb')}))
+            if pr["eqab"] or pr["eqba"]:
+                nontrivial.add(("inh", ii))
+                ja = tlajson_to_tla(pr["ja"]) if pr.get("ja") else NPJ
+                jb = tlajson_to_tla(pr["jb"]) if pr.get("jb") else NPJ
+                add_event(-1 - ii, ("inh", ii),
+                          '[id |-> @ID@, p |-> "C17", eqab |-> %s, eqba |-> %s, ka |-> %s, kb |-> %s, ja |-> %s, jb |-> %s]'
+                          % (B(pr["eqab"]), B(pr["eqba"]), strseq(pr["ka"]), strseq(pr["kb"]), ja, jb))
     adj = dict(events=0, tlc_states=0)
     if events:
         try:
@@ -496,8 +609,14 @@ def run(pid, tier, replay_file=None):
             raise MachineryError(f"cannot encode an observation for TLC: {exc}")
         for eid in sorted(rejected):
             si, (kind, idx) = ev_index[eid]
-            st, ob = states[si], observations[si]
             clause = rejected[eid]
+            if kind == "inh":
+                pr = inh[idx]
+                rep.violation(("C17", clause, "inheritance"),
+                              f"{clause}: class {pr['x']} vs the flat class {pr['tag']}; a==b {pr['eqab']}, b==a {pr['eqba']}",
+                              dict(pair={k: v for k, v in pr.items() if k not in ('ja', 'jb')}))
+                continue
+            st, ob = states[si], observations[si]
             if pid == "C17":
                 if kind == "copy":
                     rep.violation(("C17", clause), f"independently parsed copies of {sjson(st)} are not equal: {ob['copy']}",
